@@ -37,6 +37,7 @@ def parseCall (s : String) : Option Call :=
 
 def parseTid (s : String) : Option Tid :=
   if s == "c" then some .ctl
+  else if s == "k" then some .ctl2      -- the second controller (overlapping calls)
   else if s.startsWith "w" then
     match (s.drop 1).toString.toNat? with
     | some (n + 1) => some (.w n)
@@ -274,7 +275,9 @@ def answer {σ τ ο : Type} [DecidableEq ο] (step : σ → τ → σ) (en : σ
 /-- `T=<N|k>;R=<n>;X=<0|1>;W=<sss:n>/…`; anything else (e.g. `T=?`) is not an observation of the model -/
 def parseObsM (s : String) : Option Monitor.Obs :=
   match s.splitOn ";" with
-  | [t, r, x, w] => do
+  | [t, r, x, w, r2, x2] => do
+    let nret2 ← if r2.startsWith "R2=" then (r2.drop 3).toString.toNat? else none
+    let crashed2 ← if x2 == "X2=0" then some false else if x2 == "X2=1" then some true else none
     let tv := (t.drop 2).toString
     let thread ← if !t.startsWith "T=" then none else if tv == "N" then some none else tv.toNat?.map some
     let nret ← if r.startsWith "R=" then (r.drop 2).toString.toNat? else none
@@ -292,21 +295,22 @@ def parseObsM (s : String) : Option Monitor.Obs :=
             else none
           | _, _ => none
         | _ => none
-    pure { thread := thread, nret := nret, crashed := crashed, ws := ws }
+    pure { thread := thread, nret := nret, crashed := crashed, ws := ws, nret2 := nret2, crashed2 := crashed2 }
   | _ => none
 
 def showTidM : Monitor.Tid → String
-  | .ctl => "c" | .w i => s!"w{i + 1}" | .wx i => s!"x{i + 1}"
+  | .ctl => "c" | .ctl2 => "k" | .w i => s!"w{i + 1}" | .wx i => s!"x{i + 1}"
 
 def admitM (f : List String) : Option String :=
   match f with
-  | [mode, freq, daemon, calls, trace] => do
+  | [mode, freq, daemon, calls, calls2, trace] => do
     let m ← parseMode mode
     let cs ← (splitList calls).mapM parseCall
+    let cs2 ← (splitList calls2).mapM parseCall
     let (o0, tr) ← parseTrace parseTid parseObsM trace
     let p : Monitor.Params := { mode := m, freqPos := freq == "1", daemon := daemon == "1" }
     pure (answer (Monitor.step p) Monitor.enabled Monitor.obs Monitor.Obs.render Monitor.keyStr showTidM
-      (Monitor.init cs) o0 tr)
+      (Monitor.init2 cs cs2) o0 tr)
   | _ => none
 
 def showTidB : BlockWait.Tid → String
